@@ -1429,6 +1429,22 @@ class SVG:
         # https://github.com/googlefonts/picosvg/issues/269 remove empty subpaths *after* rounding
         self.remove_empty_subpaths(inplace=True)
 
+        self._prune_until_stable(ndigits)
+
+        violations = self.checkpicosvg(
+            allow_text=allow_text, drop_unsupported=drop_unsupported
+        )
+        if violations:
+            raise ValueError("Unable to convert to picosvg: " + ",".join(violations))
+
+        if drop_unsupported:
+            # the elements just dropped may have been the only users of a gradient, or
+            # have left a group with fewer than two children
+            self._prune_until_stable(ndigits)
+
+        return self
+
+    def _prune_until_stable(self, ndigits):
         # pruning may orphan gradients (their only user was invisible) and leave groups
         # with fewer than two children; flattening those pushes their opacity down, and
         # the rounded product may in turn make a shape invisible: repeat until stable
@@ -1445,18 +1461,6 @@ class SVG:
             self.round_floats(ndigits, inplace=True)
             if len(self.shapes()) == num_shapes:
                 break
-
-        violations = self.checkpicosvg(
-            allow_text=allow_text, drop_unsupported=drop_unsupported
-        )
-        if violations:
-            raise ValueError("Unable to convert to picosvg: " + ",".join(violations))
-
-        if drop_unsupported:
-            # the elements just dropped may have been the only users of a gradient
-            self._remove_orphaned_gradients()
-
-        return self
 
     @staticmethod
     def _swap_elements(swaps: Iterable[Tuple[etree.Element, Sequence[etree.Element]]]):
